@@ -457,7 +457,8 @@ class Explorer:
         else:
             g = as_z3bool(goal)
         formulas = list(facts_pc) + [z3.Not(g)]
-        ax, _ = theory.instantiate(formulas)
+        light = self.current is not None and self.current.opts.get('light_axioms', False)
+        ax, _ = theory.instantiate(formulas, heavy=not light)     # option light_axioms: no product-splitting instances
         s = z3.Solver()
         s.set('timeout', timeout_ms or self.timeout_ms)
         for f in formulas:
